@@ -31,7 +31,14 @@ def gen_case(rng):
         eff = max(ttl, 1125)
         age = rng.choice([0, 1000, eff * 500 - 1, eff * 500, eff * 500 + 1, eff * 700, eff * 999])
         typ = rng.choice([T1, T1, T2])
-        cache.append((now - age, [rec('KPointer', typ, 12, 1, alias=f'inst-{i:03d}.{typ}', ttl=ttl)]))
+        r = rec('KPointer', typ, 12, 1, alias=f'inst-{i:03d}.{typ}', ttl=ttl)
+        if rng.random() < 0.2:
+            # a history: first heard long ago in a datagram that lists the record twice, refreshed by a later datagram - what counts for the
+            # known-answer list (more than half of the TTL left, remaining TTL) is the refreshed lifetime
+            older = age + rng.choice([1000, eff * 300, eff * 600])
+            if older < eff * 1000:
+                cache.append((now - older, [r, dict(r)]))
+        cache.append((now - age, [r]))
     # SRV / TXT / A for the lookup
     for r, ttl in ((rec('KService', 'inst-000.' + T1, 33, 0x8001, port=80, server='h.local.'), 120),
                    (rec('KText', 'inst-000.' + T1, 16, 0x8001, text=b'\x01a'), 4500),
@@ -49,7 +56,8 @@ def gen_case(rng):
             known_then = []
             for t, recs in cache:
                 for r in recs:
-                    if r['kind'] == 'KPointer' and r['name'] == typ and rng.random() < 0.8:
+                    if r['kind'] == 'KPointer' and r['name'] == typ and rng.random() < 0.8 \
+                            and all(k['alias'] != r['alias'] for k in known_then):      # a known-answer SET: one entry per identity
                         known_then.append(r)
             if rng.random() < 0.3:
                 known_then.append(rec('KPointer', typ, 12, 1, alias='gone.' + typ, ttl=4500))
